@@ -1,7 +1,7 @@
 # C12 registry entry (M is injected by lib/props.py)
 PROP = dict(
     title="Matrix factorisations recompose to their input with structured factors",
-    rule=("One monitor, 32 sub-checks in three families; every case is generated from (seed, sub-check, index) with the input class = index mod K, "
+    rule=("One monitor, 33 sub-checks in three families; every case is generated from (seed, sub-check, index) with the input class = index mod K, "
           "so every boundary class is hit deterministically; cases are distinct by a hash of the literal input (matrix entries / point "
           "coordinates, weights and flags; capped by the framework, i.e. a lower bound) and every judged case is non-trivial (it exercises a full factorisation). "
           "(A) SHRT decompositions, float and double, 3-D (Matrix44) and 2-D (Matrix33): affine matrices built as S*H*R*T in long double from random "
@@ -21,7 +21,8 @@ PROP = dict(
           "(B) jacobiSVD 3x3/4x4, float/double, forcePositiveDeterminant off/on and default arguments, on 16 classes of real matrices (Gaussian, magnitude "
           "sweep, rank 1 / N-1, exactly rank-deficient, repeated singular values, scaled signed permutations, diagonal, zero/identity, integer lattice, "
           "symmetric, antisymmetric, graded conditioning, det<0, nearly diagonal, orthogonal): U^T U = I, V^T V = I, U diag(S) V^T = A, S descending and "
-          "non-negative (with the flag: det U, det V > 0 and only the last value may be negative). jacobiEigenSolver (both overloads), minEigenVector, "
+          "non-negative (with the flag: det U, det V > 0 and only the last value may be negative), tolerances 128 eps / 192 eps max|A| (3x3), 384 eps / 512 eps max|A| (4x4); "
+          "a deterministic sub-check replays 3 literal Matrix44<double> with two pairs of coinciding singular values (witnesses of the 20-sweep cap). jacobiEigenSolver (both overloads), minEigenVector, "
           "maxEigenVector on 14 classes of symmetric matrices: V^T V = I, V diag(S) V^T = A; min/max vectors: unit length, A v = (v.Av) v and |v.Av| equal to the "
           "extreme |eigenvalue| of a reference cyclic-Jacobi solver in long double. "
           "(C) procrustesRotationAndTranslation, V3f/V3d x weighted/unweighted x doScale: 'exact' cases where B_i = s A_i R + t holds exactly for the stored "
@@ -42,7 +43,7 @@ PROP = dict(
                "point sets for procrustes, perturbation test of first-order optimality, exception-contract checks on exactly degenerate input; ASan/UBSan on a sampled sweep"),
     level_text=("Every entry point named in the statement (11 3-D and 8 2-D SHRT functions in all overloads, computeRSMatrix, both checkForZeroScaleInRow, "
                 "jacobiSVD 3x3/4x4, jacobiEigenSolver 3x3/4x4 in both overloads, min/maxEigenVector, all four procrustes instantiations) is executed for float and double "
-                "on 1.4e7 (quick) / 1.5e8 (thorough) generated inputs per run, drawn from boundary classes that cover each class of the quantifier deterministically, "
+                "on 2.7e7 (quick) / 4.4e8 (thorough) generated inputs per run, drawn from boundary classes that cover each class of the quantifier deterministically, "
                 "and each result is judged against the defining identity evaluated independently in long double with tolerances calibrated to >= 8x the worst "
                 "pristine ratio. The input spaces are continuous, so this is sampling: a defect confined to a set of inputs that none of the classes reaches would be missed."),
     level_note=("sampling of continuous input spaces; nearly singular / non-unique inputs are counted but not judged; non-XYZ rotation orders are recomposed "
